@@ -81,10 +81,15 @@ Print Assumptions C12_refine.
 Example C12_refine_premises : Forall (l1op_wf lb_iface) lb_history.
 Proof. exact lb_history_wf. Qed.
 
-(* OPEN (not proved; exercised by the correspondence run and the reference-root oracle only):
-   from_set / root_from_set / nodes_from_set return the spec root of the map the set denotes
-   (later duplicates win) and from_set leaves that map persisted. *)
-Definition C12_from_set_full_statement : Prop :=
+(* from_set / root_from_set / nodes_from_set (BTreeMap collect = sort with last duplicate wins,
+   three-node-window merge with proximities, merge_branches with placeholder padding): all three
+   return the compact sparse Merkle root of the map the set denotes; from_set leaves that map
+   persisted in its node store; the node list of nodes_from_set, inserted into an empty store
+   and loaded at the returned root, is a persisted tree of that map.
+   [kcmp] is the key order used by the BTreeMap: lexicographic on the key bits. *)
+From FV Require Import Merkle.SparseSorted Merkle.SparseFromSet Merkle.SparseFromSetGen.
+
+Theorem C12_from_set :
   forall (Dg : Type) (IF : smt_iface Dg) (kcmp : Dg -> Dg -> comparison),
     (forall a b, kcmp a b = bits_compare (i_bits IF a) (i_bits IF b)) ->
     forall set : list (Dg * bytes),
@@ -94,7 +99,17 @@ Definition C12_from_set_full_statement : Prop :=
       (exists T, from_set (i_eqb IF) (i_zero IF) (i_hleaf IF) (i_hnode IF) (i_sum IF) (i_kbit IF) (i_kcpl IF) kcmp [] set = Ok T /\
                  tree_root (i_zero IF) T = spec /\ persisted IF T m) /\
       root_from_set (i_zero IF) (i_hleaf IF) (i_hnode IF) (i_sum IF) (i_kbit IF) (i_kcpl IF) kcmp set = Ok spec /\
-      (exists nodes, nodes_from_set (i_zero IF) (i_hleaf IF) (i_hnode IF) (i_sum IF) (i_kbit IF) (i_kcpl IF) kcmp set = Ok (spec, nodes)).
+      (exists nodes, nodes_from_set (i_zero IF) (i_hleaf IF) (i_hnode IF) (i_sum IF) (i_kbit IF) (i_kcpl IF) kcmp set = Ok (spec, nodes) /\
+                     exists T, tree_load (i_eqb IF) (i_zero IF) (i_hleaf IF) (i_hnode IF)
+                                         (fold_left (fun st e => sset (i_eqb IF) st (fst e) (snd e)) nodes []) spec = Ok T /\
+                               persisted IF T m).
+Proof. exact @from_set_family_correct. Qed.
+Print Assumptions C12_from_set.
+
+Example C12_from_set_premises :
+  (forall a b : lb, bits_compare a b = bits_compare (i_bits lb_iface a) (i_bits lb_iface b)) /\
+  Forall (fun e : lb * bytes => length (i_bits lb_iface (fst e)) = 256%nat) [(lb_k0, [1]); (lb_k1, []); (lb_k2, [2]); (lb_k0, [3])].
+Proof. split; [reflexivity | repeat constructor]. Qed.
 
 (* ------------------------------------------------------------------------------------------
    The byte-level key functions of common/msb.rs (as modelled) are the bit-list functions the
